@@ -40,7 +40,18 @@ def run(prog, rep):
     WOULD_BLOCK = pe.enum_value("P_ERROR_IO_WOULD_BLOCK")
 
     # ---- summary of pp_socket_check ---------------------------------------
-    chk = u.fn("pp_socket_check")
+    cands = []
+    for f_ in u.functions.values():
+        if not f_.static or not f_.params:
+            continue
+        tests = [n for (b, i, n) in f_.nodes(elsewhere=True) if n["k"] == "member" and n["field"] == "closed" and root_var(n) == f_.param_names()[0]]
+        sets = [c for (b, i, c) in f_.calls() if c.get("callee") == "p_error_set_error_p"]
+        if tests and sets and len(f_.blocks) <= 8:
+            cands.append(f_)
+    if len(cands) != 1:
+        raise AnalysisBroken("psocket.c: expected one static closed-check helper, found %s" % [f_.name for f_ in cands])
+    chk = cands[0]
+    CHK = chk.name
     results, fl = wrapper_paths(chk, [])
     ok = True
     msg = ""
@@ -57,12 +68,12 @@ def run(prog, rep):
     errs = [c for (b, i, c) in chk.calls() if c.get("callee") == "p_error_set_error_p"]
     code_ok = len(errs) == 1 and cv(errs[0]["args"][1]) == NOT_AVAILABLE
     rep.ob("C10.1", chk, "summary", ok and code_ok,
-           "pp_socket_check returns FALSE exactly when socket->closed and reports P_ERROR_IO_NOT_AVAILABLE" if ok and code_ok else
+           "%s returns FALSE exactly when socket->closed and reports P_ERROR_IO_NOT_AVAILABLE" % CHK if ok and code_ok else
            (msg or "the closed check does not report P_ERROR_IO_NOT_AVAILABLE"), chk.loc[0])
 
     # ---- C10.1 dominance ----------------------------------------------------
     nops = 0
-    for fn in sorted(u.functions.values(), key=lambda f: f.loc[0]):
+    for fn in sorted(u.roots(), key=lambda f: f.loc[0]):
         params = fn.param_names()
         if not params:
             continue
@@ -95,7 +106,7 @@ def run(prog, rep):
                 if n["k"] == "member" and n["field"] == "fd" and root_var(n) == sp and id(n) not in stores:
                     passed = False
                     for (fk, fop, fv) in facts:
-                        if fk.startswith("pp_socket_check(%s," % sp) and ((fop == "==" and fv == 1) or (fop == "!=" and fv == 0)):
+                        if fk.startswith("%s(%s," % (CHK, sp)) and ((fop == "==" and fv == 1) or (fop == "!=" and fv == 0)):
                             passed = True
                         if fk == "%s->closed" % sp and fop == "==" and fv == 0:
                             passed = True
@@ -103,7 +114,7 @@ def run(prog, rep):
                         seen_ok[0] += 1
                     else:
                         bad.append((line(n), flow.witness_lines(*flow.cur)))
-            f2 = guards.transfer(facts, stmt, stable=("pp_socket_check(%s,error)" % sp,))
+            f2 = guards.transfer(facts, stmt, stable=("%s(%s,error)" % (CHK, sp),))
             return [f2]
 
         def on_edge(st, b, to, on):
@@ -117,7 +128,7 @@ def run(prog, rep):
     rep.floor("C10.1", 11, "summary + 10 operations that use the descriptor")
 
     # ---- C10.2 close protocol ---------------------------------------------
-    cl = u.fn("p_socket_close")
+    cl = u.fn("p_socket_close").inlined()
     sp = cl.param_names()[0]
     okc = True
     cmsg = ""
@@ -177,7 +188,7 @@ def run(prog, rep):
     # the closed test precedes p_sys_close
     rep.ob("C10.2", cl, "protocol", okc and bool(results), "fd=-1, closed, !connected, !listening on success; second close returns TRUE without a libc call"
            if okc else cmsg, cl.loc[0])
-    fr = u.fn("p_socket_free")
+    fr = u.fn("p_socket_free").inlined()
     cs = [c for (b, i, c) in fr.calls() if c.get("callee") in ("p_socket_close", "p_sys_close", "close")]
     okf = len(cs) == 1 and cs[0].get("callee") == "p_socket_close" and root_var(cs[0]["args"][0]) == fr.param_names()[0]
     rep.ob("C10.2", fr, "free", okf, "p_socket_free closes through p_socket_close (so an already closed socket is not closed twice)" if okf else
@@ -233,51 +244,61 @@ def run(prog, rep):
     rep.floor("C10.3", 16)
 
     # ---- C10.4 timeout plumbing ----------------------------------------------
-    w = u.fn(WAIT)
+    w = u.fn(WAIT).inlined()
     polls = [(b, i, c) for (b, i, c) in w.calls() if c.get("callee") in ("poll", "select")]
     if len(polls) != 1 or polls[0][2].get("callee") != "poll":
         raise AnalysisBroken("p_socket_io_condition_wait: expected exactly one poll call")
     pb, pi, pc = polls[0]
-    targ = strip_casts(pc["args"][2])
-    tvar = targ["name"] if targ is not None and targ["k"] == "ref" else None
-    # definition(s) of the timeout variable
-    defs = []
-    for b, i, n in w.nodes():
-        if n["k"] == "asg" and strip_casts(n["l"])["k"] == "ref" and strip_casts(n["l"])["name"] == tvar:
-            defs.append((b, i, n))
-        if n["k"] == "decl" and n["name"] == tvar and n.get("init") is not None:
-            defs.append((b, i, n))
     sp = w.param_names()[0]
-    okt = False
+    T = ("m0", ("fld", ("p", sp), "timeout"))
+    seen_t = []
+
+    def on_poll(name, args, node, st, sx):
+        if name == "poll" and node is pc:
+            seen_t.append((symx.norm(args[2]), st.copy()))
+        return None
+    sfw = symx.SymFlow(w, on_call=on_poll, widen=True)
+    sfw.run()
+    okt = bool(seen_t)
     tmsg = "cannot identify the value passed to poll as timeout"
-    if tvar and len(defs) == 1:
-        db, di, dn = defs[0]
-        rhs = dn["r"] if dn["k"] == "asg" else dn["init"]
-        sx = symx.SymExec(w)
-        st = symx.State()
-        term = symx.norm(sx.ev(rhs, st)[0][0])
-        T = ("m0", ("fld", ("p", sp), "timeout"))
-        # sel(T > 0, T, negative)  (T != 0 accepted: the setter clamps negatives to 0 — checked below)
-        if term[0] == "sel" and term[2] == T and term[3][0] == "c" and term[3][1] < 0:
-            c = term[1]
-            if c == symx.norm(("cmp", ">", T, symx.C(0))):
-                okt = True
-            elif c == symx.norm(("cmp", "!=", T, symx.C(0))) or c == symx.norm(("cmp", ">=", T, symx.C(1))):
-                okt = setter_clamps(u)
-                tmsg = "poll timeout selects on timeout != 0 but the setter does not clamp negative values"
-            else:
-                tmsg = "poll timeout is %s" % symx.show(term)
-        elif term == T:
-            okt = False
-            tmsg = "poll is given socket->timeout unchanged: 0 (no timeout) makes poll return at once instead of waiting"
+    first = None
+    for (term, st_) in seen_t:
+        if term[0] == "hv" or term[0] == "lv":
+            okt, tmsg = False, "the timeout value is modified inside the retry loop"
+            break
+        alts = []
+        if term[0] == "sel":
+            alts = [(term[1], True, term[2]), (term[1], False, term[3])]
         else:
-            tmsg = "poll timeout is %s" % symx.show(term)
-        # not modified in the loop
-        loops = [body for (h, body) in w.loops() if pb.id in body]
-        if loops and db.id in set().union(*loops):
-            okt, tmsg = False, "the timeout variable is modified inside the retry loop"
-        if not w.pos_dominates((db.id, di), (pb.id, pi)):
-            okt, tmsg = False, "the timeout definition does not dominate the poll call"
+            alts = [(None, None, term)]
+        for (c_, truth, v) in alts:
+            if v == T:
+                # must be reached only with timeout > 0 (or != 0 when the setter clamps negatives)
+                pos = symx.norm(("cmp", ">", T, symx.C(0)))
+                nz = symx.norm(("cmp", "!=", T, symx.C(0)))
+                ge1 = symx.norm(("cmp", ">=", T, symx.C(1)))
+                known_pos = (c_ == pos and truth) or st_.cond_known(pos) is True or (c_ == ge1 and truth) or st_.cond_known(ge1) is True
+                known_nz = (c_ == nz and truth) or st_.cond_known(nz) is True
+                if known_pos:
+                    continue
+                if known_nz:
+                    if not setter_clamps(u):
+                        okt, tmsg = False, "poll timeout selects on timeout != 0 but the setter does not clamp negative values"
+                    continue
+                okt, tmsg = False, "poll is given socket->timeout on a path where it may be 0: 0 (no timeout) makes poll return at once instead of waiting"
+            elif v[0] == "c":
+                if v[1] >= 0:
+                    okt, tmsg = False, "poll is given the constant timeout %d: the call cannot wait without a limit" % v[1]
+                else:
+                    # negative constant: only when the socket timeout is not positive
+                    pos = symx.norm(("cmp", ">", T, symx.C(0)))
+                    if (c_ == pos and truth is False) or st_.cond_known(pos) is False or c_ is not None and c_ != pos and truth is False \
+                            or st_.cond_known(symx.norm(("cmp", "!=", T, symx.C(0)))) is False:
+                        continue
+                    if c_ is None and st_.cond_known(pos) is None:
+                        okt, tmsg = False, "poll waits without a limit although the socket timeout may be positive"
+            else:
+                okt, tmsg = False, "poll timeout is %s" % symx.show(term)
     rep.ob("C10.4", w, "timeout:value", okt, "poll waits socket->timeout ms when positive, forever (negative) otherwise; the value is fixed before the retry loop" if okt else tmsg, pc)
     # result mapping
     evk = guards.key(pc)
@@ -331,7 +352,7 @@ def run(prog, rep):
              ("p_socket_get_listen_backlog", "p_socket_set_listen_backlog", "listen_backlog"),
              ("p_socket_get_timeout", "p_socket_set_timeout", "timeout")]
     for g, s, fld in pairs:
-        gf, sf = u.fn(g), u.fn(s)
+        gf, sf = u.fn(g).inlined(), u.fn(s).inlined()
         rets = [r for (b, i, r) in gf.returns()]
         gfields = set()
         for r in rets:
@@ -348,14 +369,14 @@ def run(prog, rep):
         rep.ob("C10.5", gf, "field", ok5, "%s returns %s, the field %s writes" % (g, sorted(gfields), s) if ok5 else
                "%s returns %s but %s writes %s" % (g, sorted(gfields), s, sorted(sfields)), gf.loc[0])
     for g, fld in (("p_socket_is_connected", "connected"), ("p_socket_is_closed", "closed")):
-        gf = u.fn(g)
+        gf = u.fn(g).inlined()
         gfields = set()
         for (b, i, r) in gf.returns():
             e = strip_casts(r.get("e"))
             if e is not None and e["k"] == "member":
                 gfields.add(e["field"])
         rep.ob("C10.5", gf, "field", gfields == {fld}, "%s returns the %s flag" % (g, fld) if gfields == {fld} else "%s returns %s" % (g, sorted(gfields)), gf.loc[0])
-    sb = u.fn("p_socket_set_listen_backlog")
+    sb = u.fn("p_socket_set_listen_backlog").inlined()
     bad = []
 
     def on_stmt3(st, b, i, stmt):
@@ -394,7 +415,7 @@ def run(prog, rep):
 
     # ---- C10.6 close-on-exec -----------------------------------------------
     for fname, creator, typearg in (("p_socket_new", "socket", 1), ("p_socket_accept", "accept", None)):
-        fn = u.fn(fname)
+        fn = u.fn(fname).inlined()
         cs = [(b, i, c) for (b, i, c) in fn.calls() if c.get("callee") == creator]
         if len(cs) != 1:
             raise AnalysisBroken("%s: expected one %s() call" % (fname, creator))
@@ -476,7 +497,7 @@ def boolean_valued(e, fn, bitfields):
 
 
 def setter_clamps(u):
-    sf = u.fn("p_socket_set_timeout")
+    sf = u.fn("p_socket_set_timeout").inlined()
     for b, i, n in sf.nodes():
         if n["k"] == "asg" and cv(n["r"]) == 0:
             return True
